@@ -120,22 +120,31 @@ func H12aT() { h12a(3) }
 // shallow files and files not ending in "txt" are ignored; a tree whose remaining files sit at
 // category/name/variant depth yields exactly one AddContent(category, name, variant, bytes) per file.
 func h12a(nfiles int) {
-	if vxNative() {
-		return // the file system stubs exist only under the engine; native replay uses TestVxC12
-	}
-	fs := &vxFS{cwd: "/home/u", files: map[string]string{}, dirs: map[string]bool{}}
 	root := "/home/u/a/d"
-	comps := []string{"License", "X", "l", "m", "deep"}
-	sufs := []string{".txt", "txt", ".md", ""}
+	realRoot := ""
+	if vxNative() {
+		// native replay: the same tree is created under a temporary directory
+		tmp, err := os.MkdirTemp("", "vxc12")
+		if err != nil {
+			panic(err)
+		}
+		defer os.RemoveAll(tmp)
+		realRoot = tmp
+		root = tmp + "/a/d"
+	}
+	fs := &vxFS{cwd: filepath.Dir(filepath.Dir(root)), files: map[string]string{}, dirs: map[string]bool{}}
+	comps := []string{"License", "X", "l", "m", "deep", "Plaintxt"}
+	sufs := []string{".txt", "txt", ".md"}
 	type exp struct{ cat, name, variant, content string }
 	var want []exp
 	exact := true
 	for i := 0; i < nfiles; i++ {
 		depth := vxChoice(4) + 1 // 1..4 components below the root
 		suf := sufs[vxChoice(len(sufs))]
+		first := []int{0, 3, 5}[vxChoice(3)]
 		var parts []string
 		for d := 0; d < depth; d++ {
-			parts = append(parts, comps[(i+d)%len(comps)])
+			parts = append(parts, comps[(first+d)%len(comps)])
 		}
 		parts[depth-1] = parts[depth-1] + string(rune('0'+i)) + suf
 		rel := strings.Join(parts, "/")
@@ -150,17 +159,19 @@ func h12a(nfiles int) {
 		}
 	}
 	fs.dirs[root] = true
-	spelling := []string{"/home/u/a/d", "/home/u/a/d/", "a/d", "a/d/", "./a/d", "./a/d/", "a//d", "a/./d", "a/d/."}[vxChoice(9)]
-	var got [][4]string
-	fs.install(&got)
-	c := NewClassifier(0.8)
-	err := c.LoadLicenses(spelling)
-	fs.uninstall()
-	vxAssert("no-error", err == nil)
-	if exact {
-		vxAssert("one-addcontent-per-file", len(got) == len(want))
+	rels := []string{"", "/", "a/d", "a/d/", "./a/d", "./a/d/", "a//d", "a/./d", "a/d/."}
+	si := vxChoice(len(rels))
+	spelling := rels[si]
+	if si < 2 {
+		spelling = root + spelling
+	}
+	check := func(tag string, got [][4]string, err error) {
+		vxAssert(tag+"no-error", err == nil)
+		if !exact {
+			return
+		}
+		vxAssert(tag+"one-addcontent-per-file", len(got) == len(want))
 		if len(got) == len(want) {
-			// Walk visits in lexical order; compare as multisets
 			for _, w := range want {
 				found := 0
 				for _, g := range got {
@@ -168,19 +179,58 @@ func h12a(nfiles int) {
 						found++
 					}
 				}
-				vxAssert("addcontent-arguments", found == 1)
+				vxAssert(tag+"addcontent-arguments", found == 1)
 			}
 		}
 	}
+	if vxNative() {
+		// real files, real Walk; what was loaded is read back from the classifier
+		for p, c := range fs.files {
+			os.MkdirAll(filepath.Dir(p), 0o755)
+			os.WriteFile(p, []byte(c), 0o644)
+		}
+		os.MkdirAll(root, 0o755)
+		load := func(cwd, dir string) ([][4]string, error) {
+			old, _ := os.Getwd()
+			os.Chdir(cwd)
+			defer os.Chdir(old)
+			c := NewClassifier(0.8)
+			err := c.LoadLicenses(dir)
+			var got [][4]string
+			for name, d := range c.docs {
+				parts := strings.Split(name, "/")
+				got = append(got, [4]string{parts[0], parts[1], parts[2], d.Norm + " "})
+			}
+			return got, err
+		}
+		// contents are compared through their normalised token text
+		for i := range want {
+			want[i].content = NewClassifier(0.8).createTargetIndexedDocumentNorm(want[i].content)
+		}
+		got, err := load(realRoot, spelling)
+		check("", got, err)
+		got2, err2 := load(root, ".")
+		check("dot-", got2, err2)
+		return
+	}
+	var got [][4]string
+	fs.install(&got)
+	c := NewClassifier(0.8)
+	err := c.LoadLicenses(spelling)
+	fs.uninstall()
+	check("", got, err)
 	// the process directory itself as the corpus directory
 	var got2 [][4]string
 	fs2 := &vxFS{cwd: root, files: fs.files, dirs: fs.dirs}
 	fs2.install(&got2)
 	err = NewClassifier(0.8).LoadLicenses(".")
 	fs2.uninstall()
-	vxAssert("dot-no-error", err == nil)
-	if exact {
-		vxAssert("dot-one-addcontent-per-file", len(got2) == len(want))
-	}
+	check("dot-", got2, err)
 	vxCover("end")
+}
+
+// createTargetIndexedDocumentNorm gives the normalised text a document gets when added (native replay only).
+func (c *Classifier) createTargetIndexedDocumentNorm(content string) string {
+	c.AddContent("x", "y", "z", []byte(content))
+	return c.docs["x/y/z"].Norm + " "
 }
